@@ -37,23 +37,24 @@ def ref_sedol(ctx, base):
 
 
 def ref_isin(ctx, base):
-    """Luhn over the digit expansion (letters -> two digits), doubling every other digit from the right."""
-    # expand to digit list; each char gives 1 digit (0-9) or 2 digits (10..35); positions depend on how many
-    # two-digit characters follow, so track 'number of digits to the right' parity symbolically.
+    """Luhn over the digit expansion (A=10 ... Z=35 give two digits), doubling every other digit from the right."""
+    digits = []
+    for c in base:
+        if c.isdigit():
+            digits.append(ord(c) - 48)
+        else:
+            v = ord(c) - 55
+            digits.append(v // 10)
+            digits.append(v % 10)
     total = 0
-    parity = 0          # number of digits already consumed from the right, mod 2 (python int or symbolic)
-    for c in reversed(list(base)):
-        v = ref_charval(ctx, c)
-        two = v >= 10
-        lo = v % 10
-        hi = v // 10
-        # rightmost digit of this char sits at index `parity` from the right: doubled when parity == 0
-        dbl_lo = ctx.ite(lo * 2 >= 10, lo * 2 - 9, lo * 2)
-        dbl_hi = ctx.ite(hi * 2 >= 10, hi * 2 - 9, hi * 2)
-        even = parity % 2 == 0
-        total = total + ctx.ite(even, dbl_lo, lo)
-        total = total + ctx.ite(two, ctx.ite(even, hi, dbl_hi), 0)
-        parity = parity + ctx.ite(two, 2, 1)
+    dbl = True
+    for d in reversed(digits):
+        if dbl:
+            e = d * 2
+            total = total + ctx.ite(e >= 10, e - 9, e)
+        else:
+            total = total + d
+        dbl = not dbl
     return (10 - total % 10) % 10
 
 
